@@ -856,3 +856,127 @@ Proof.
       destruct (Nat.eqb_spec z e) as [->|]; simpl; [|apply Hsp; exact Hz].
       destruct (Bool.eqb_spec sd' sd) as [->|]; [exfalso; apply (Hu2 _ _ Hz)|apply Hsp; exact Hz].
 Qed.
+
+(* ------------------------------------------------------------------ operations proved to keep clauses (i)-(iii) *)
+Lemma set_oid_pres E s e sd v s' : IdxJ s -> set_oid E s e sd v = Ok s' -> IdxJ s'.
+Proof.
+  unfold set_oid, run_cmd, fuel_of. intros HJ H.
+  replace (2 * length (ents s) + 8) with (S (2 * length (ents s) + 7)) in H by lia.
+  eapply exec_oid_pres; eassumption.
+Qed.
+
+Lemma run_flag_pres E c s s' : flag_cmd c = true -> IdxJ s -> run_cmd E c s = Ok s' -> IdxJ s'.
+Proof.
+  intros Hc HJ H. unfold run_cmd in H. apply exec_flag_view in H as [Hv _]; [|exact Hc].
+  apply (IdxJ_view s); [symmetry; exact Hv|exact HJ].
+Qed.
+Lemma set_changed_pres E s e sd v s' : IdxJ s -> set_changed E s e sd v = Ok s' -> IdxJ s'.
+Proof. intros HJ H. eapply (run_flag_pres E (CChg true e sd v)); [reflexivity|exact HJ|exact H]. Qed.
+Lemma set_priority_pres E s e v s' : IdxJ s -> set_priority E s e v = Ok s' -> IdxJ s'.
+Proof. intros HJ H. eapply (run_flag_pres E (CPrio e v)); [reflexivity|exact HJ|exact H]. Qed.
+
+Lemma set_plain_pres s e sd f s' :
+  (forall x, s_oid (f x) = s_oid x /\ s_path (f x) = s_path x) ->
+  IdxJ s -> set_plain s e sd f = Ok s' -> IdxJ s'.
+Proof.
+  intros Hf HJ H. unfold set_plain in H. bind_inv H. injection H as <-.
+  apply (IdxJ_view s); [|exact HJ]. rewrite iview_raw_side; [reflexivity|exact Hf].
+Qed.
+
+Lemma set_ignored_view s e v s' : set_ignored s e v = Ok s' -> iview s' = iview s.
+Proof.
+  unfold set_ignored. intros H. bind_inv H. destruct (ign_eqb (e_ign x) v); [injection H as <-; reflexivity|].
+  destruct v; simpl in H;
+    match type of H with
+    | match nth_error ?l e with _ => _ end = _ => destruct (nth_error l e) as [en2|] eqn:E2; [|discriminate]
+    end;
+    injection H as <-; (rewrite (iview_put_ent _ _ en2); [|exact E2|reflexivity]); try reflexivity.
+  transitivity (iview (raw_side (raw_side s e false (fun y => w_chg y CFalse)) e true (fun y => w_chg y CFalse))); [reflexivity|].
+  rewrite !iview_raw_side; [reflexivity| |]; intros y; split; reflexivity.
+Qed.
+Lemma set_ignored_pres s e v s' : IdxJ s -> set_ignored s e v = Ok s' -> IdxJ s'.
+Proof. intros HJ H. apply set_ignored_view in H. apply (IdxJ_view s); [symmetry; exact H|exact HJ]. Qed.
+
+Lemma mark_changed_pres E s e sd s' : IdxJ s -> mark_changed E s e sd = Ok s' -> IdxJ s'.
+Proof.
+  intros HJ H. unfold mark_changed in H. bind_inv H. bind_inv H. bind_inv H.
+  assert (H0: IdxJ (st_now s (now s + 1000)%N)) by (apply (IdxJ_view s); [reflexivity|exact HJ]).
+  pose proof (set_changed_pres _ _ _ _ _ _ H0 E0) as H1.
+  assert (H2: IdxJ x0).
+  { destruct (N.leb (now s + 1000) (lastch x)); [eapply set_changed_pres; eassumption|injection E1 as <-; exact H1]. }
+  destruct (s_chg (gs x1 sd)); try discriminate. injection H as <-.
+  apply (IdxJ_view x0); [reflexivity|exact H2].
+Qed.
+
+Lemma finished_pres E s e s' : IdxJ s -> finished E s e = Ok s' -> IdxJ s'.
+Proof.
+  intros HJ H. unfold finished in H. bind_inv H. bind_inv H. bind_inv H.
+  assert (H1: IdxJ x0).
+  { destruct (tchg (s_chg (e_l x))); [injection E1 as <-; exact HJ|].
+    eapply set_plain_pres; [|exact HJ|exact E1]. intros y; split; reflexivity. }
+  assert (H2: IdxJ x1).
+  { destruct (tchg (s_chg (e_r x))); [injection E2 as <-; exact H1|].
+    eapply set_plain_pres; [|exact H1|exact E2]. intros y; split; reflexivity. }
+  destruct (tchg (s_chg (e_l x)) || tchg (s_chg (e_r x)))%bool; [injection H as <-; exact H2|].
+  match type of H with
+  | ?f ?L ?S = Ok _ =>
+    assert (H3: IdxJ S) by (apply (IdxJ_view x1); [reflexivity|exact H2]);
+    revert H H3; generalize S; generalize L
+  end.
+  intros l. induction l as [|a l IH]; intros s0 H H3.
+  - simpl in H. injection H as <-. exact H3.
+  - simpl in H. bind_inv H. bind_inv H. bind_inv H. apply (IH x4); [exact H|].
+    destruct (N.ltb 0 (e_prio x2) && is_related E x3 x2)%bool; [eapply set_priority_pres; eassumption|injection E5 as <-; exact H3].
+Qed.
+
+Definition fieldw_covered (w : fieldw) : bool := match w with FPath _ => false | _ => true end.
+(* operations whose effect on the indexes is covered by the proof below *)
+Definition op_covered (o : op) : bool :=
+  match o with
+  | OSet _ _ w => fieldw_covered w
+  | OIgn _ _ | OPrio _ _ | OFinished _ | OMark _ _ | ODiscard _ => true
+  | _ => false
+  end.
+
+Lemma apply_op_pres E s o s' : op_covered o = true -> IdxJ s -> apply_op E s o = Ok s' -> IdxJ s'.
+Proof.
+  intros Hc HJ H. destruct o; try discriminate; simpl in H.
+  - destruct w; try discriminate.
+    + eapply set_oid_pres; eassumption.
+    + eapply set_changed_pres; eassumption.
+    + eapply set_plain_pres; [|exact HJ|exact H]; intros y; split; reflexivity.
+    + eapply set_plain_pres; [|exact HJ|exact H]; intros y; split; reflexivity.
+    + eapply set_plain_pres; [|exact HJ|exact H]; intros y; split; reflexivity.
+    + eapply set_plain_pres; [|exact HJ|exact H]; intros y; split; reflexivity.
+    + eapply set_plain_pres; [|exact HJ|exact H]; intros y; split; reflexivity.
+    + eapply set_plain_pres; [|exact HJ|exact H]; intros y; split; reflexivity.
+  - eapply set_ignored_pres; eassumption.
+  - eapply set_priority_pres; eassumption.
+  - eapply finished_pres; eassumption.
+  - eapply mark_changed_pres; eassumption.
+  - eapply set_ignored_pres; eassumption.
+Qed.
+
+Lemma step_pres E s ot s' : op_covered (fst ot) = true -> IdxJ s -> step E s ot = Ok s' -> IdxJ s'.
+Proof.
+  intros Hc HJ H. unfold step in H. bind_inv H. destruct (tape x); [|discriminate]. injection H as <-.
+  eapply apply_op_pres; [exact Hc| |exact E0]. apply (IdxJ_view s); [reflexivity|exact HJ].
+Qed.
+
+(* any state, not only a reachable one: every covered operation keeps (i)-(iii) *)
+Lemma idx_run_partial E : forall ops s s',
+  forallb (fun ot => op_covered (fst ot)) ops = true -> IdxJ s -> run_ops E s ops = Ok s' -> IdxJ s'.
+Proof.
+  induction ops as [|o ops IH]; intros s s' Hc HJ H; simpl in H.
+  - injection H as <-. exact HJ.
+  - simpl in Hc. apply andb_prop in Hc as [Hc1 Hc2]. bind_inv H.
+    apply (IH x _ Hc2); [|exact H]. eapply step_pres; eassumption.
+Qed.
+
+Lemma idx_partial : forall E ops s s',
+  forallb (fun ot => op_covered (fst ot)) ops = true -> IdxJ s -> run_ops E s ops = Ok s' ->
+  idx_found s' /\ idx_slots s' /\ idx_unique s'.
+Proof.
+  intros E ops s s' Hc HJ H. pose proof (idx_run_partial E ops s s' Hc HJ H) as [Hf Hs].
+  split; [exact Hf|]. split; [exact Hs|]. exact (idx_found_unique s' Hf).
+Qed.
